@@ -680,3 +680,173 @@ pub proof fn lemma_orbit_covers(g: Game, a: Cur, k: nat, tt: int, rt: int, q: Cu
     assert(cur_ok(g, c));
     lemma_cur_rank_inj(c, q, lens);
 }
+
+// ---------- the iterator constructor: deck = the 49 cards not on the flop, in code order ----------
+
+pub open spec fn card_of_code(n: int) -> Card { Card(rank_of_code(n / 4), suit_of_code(n % 4)) }
+
+pub proof fn lemma_card_codes(c: Card)
+    ensures 0 <= card_code(c) < 52, card_of_code(card_code(c)) == c,
+{
+}
+
+pub proof fn lemma_code_cards(n: int)
+    requires 0 <= n < 52,
+    ensures card_code(card_of_code(n)) == n,
+{
+}
+
+/// cards with code < n that are not on the flop, in code order
+pub open spec fn unseen_prefix(flop: Seq<Card>, n: int) -> Seq<Card>
+    decreases n
+{
+    if n <= 0 { Seq::empty() } else if in_seq(card_of_code(n - 1), flop) { unseen_prefix(flop, n - 1) } else { unseen_prefix(flop, n - 1).push(card_of_code(n - 1)) }
+}
+
+/// number of flop cards with code < n
+pub open spec fn cnt_below(flop: Seq<Card>, n: int, k: int) -> int
+    decreases k
+{
+    if k <= 0 { 0 } else { cnt_below(flop, n, k - 1) + if card_code(flop[k - 1]) < n { 1int } else { 0int } }
+}
+
+pub proof fn lemma_cnt_below_step(flop: Seq<Card>, n: int, k: int)
+    requires 0 <= k <= flop.len(), 0 <= n < 52, distinct_cards(flop),
+    ensures cnt_below(flop, n + 1, k) == cnt_below(flop, n, k) + if exists|j: int| 0 <= j < k && flop[j] == card_of_code(n) { 1int } else { 0int },
+    decreases k
+{
+    if k > 0 {
+        lemma_cnt_below_step(flop, n, k - 1);
+        lemma_card_codes(flop[k - 1]);
+        lemma_code_cards(n);
+        if flop[k - 1] == card_of_code(n) {
+            assert(!(exists|j: int| 0 <= j < k - 1 && flop[j] == card_of_code(n))) by {
+                if exists|j: int| 0 <= j < k - 1 && flop[j] == card_of_code(n) {
+                    let j = choose|j: int| 0 <= j < k - 1 && flop[j] == card_of_code(n);
+                    assert(flop[j] == flop[k - 1]);
+                }
+            }
+        } else {
+            assert(card_code(flop[k - 1]) != n);
+            if exists|j: int| 0 <= j < k && flop[j] == card_of_code(n) {
+                let j = choose|j: int| 0 <= j < k && flop[j] == card_of_code(n);
+                assert(j < k - 1);
+            }
+        }
+    }
+}
+
+pub proof fn lemma_cnt_below_zero(flop: Seq<Card>, k: int)
+    requires 0 <= k <= flop.len(),
+    ensures cnt_below(flop, 0, k) == 0,
+    decreases k
+{
+    if k > 0 { lemma_cnt_below_zero(flop, k - 1); lemma_card_codes(flop[k - 1]); }
+}
+
+pub proof fn lemma_unseen_prefix(flop: Seq<Card>, n: int)
+    requires 0 <= n <= 52, distinct_cards(flop),
+    ensures
+        unseen_prefix(flop, n).len() == n - cnt_below(flop, n, flop.len() as int),
+        forall|i: int| 0 <= i < unseen_prefix(flop, n).len() ==> card_code(#[trigger] unseen_prefix(flop, n)[i]) < n && !in_seq(unseen_prefix(flop, n)[i], flop),
+        forall|i: int, j: int| 0 <= i < j < unseen_prefix(flop, n).len() ==> card_code(#[trigger] unseen_prefix(flop, n)[i]) < card_code(#[trigger] unseen_prefix(flop, n)[j]),
+        forall|c: Card| card_code(c) < n && !in_seq(c, flop) ==> #[trigger] in_seq(c, unseen_prefix(flop, n)),
+    decreases n
+{
+    if n > 0 {
+        lemma_unseen_prefix(flop, n - 1);
+        lemma_cnt_below_step(flop, n - 1, flop.len() as int);
+        lemma_code_cards(n - 1);
+        let p = unseen_prefix(flop, n - 1);
+        let q = unseen_prefix(flop, n);
+        let c0 = card_of_code(n - 1);
+        assert(in_seq(c0, flop) <==> exists|j: int| 0 <= j < flop.len() && flop[j] == c0);
+        assert forall|c: Card| card_code(c) < n && !in_seq(c, flop) implies #[trigger] in_seq(c, q) by {
+            lemma_card_codes(c);
+            if card_code(c) < n - 1 {
+                assert(in_seq(c, p));
+                let i = choose|i: int| 0 <= i < p.len() && p[i] == c;
+                assert(q[i] == c);
+            } else {
+                assert(c == c0);
+                assert(q[q.len() - 1] == c0);
+            }
+        }
+        if !in_seq(c0, flop) {
+            assert forall|i: int, j: int| 0 <= i < j < q.len() implies card_code(#[trigger] q[i]) < card_code(#[trigger] q[j]) by {
+                if j < p.len() { assert(q[i] == p[i] && q[j] == p[j]); } else { assert(q[i] == p[i]); }
+            }
+        }
+    } else {
+        lemma_cnt_below_zero(flop, flop.len() as int);
+    }
+}
+
+pub proof fn lemma_cnt_below_all(flop: Seq<Card>, k: int)
+    requires 0 <= k <= flop.len(),
+    ensures cnt_below(flop, 52, k) == k,
+    decreases k
+{
+    if k > 0 { lemma_cnt_below_all(flop, k - 1); lemma_card_codes(flop[k - 1]); }
+}
+
+/// with three distinct flop cards the full prefix is the deck the enumeration needs
+pub proof fn lemma_unseen_deck(flop: Seq<Card>)
+    requires flop.len() == 3, distinct_cards(flop),
+    ensures deck_is_unseen(unseen_prefix(flop, 52), flop),
+{
+    lemma_unseen_prefix(flop, 52);
+    lemma_cnt_below_all(flop, 3);
+    let d = unseen_prefix(flop, 52);
+    assert forall|c: Card| #[trigger] in_seq(c, d) <==> !in_seq(c, flop) by {
+        lemma_card_codes(c);
+        if in_seq(c, d) { let i = choose|i: int| 0 <= i < d.len() && d[i] == c; assert(!in_seq(d[i], flop)); }
+    }
+}
+
+/// the combos of one range, listed from a HashMap iteration
+pub open spec fn listed_prefix(entries: Seq<(CardPair, f32)>, kvs: Seq<(&CardPair, &f32)>, n: int) -> bool {
+    entries.len() == n && forall|k: int| 0 <= k < n ==> #[trigger] entries[k] == (*kvs[k].0, *kvs[k].1)
+}
+
+pub proof fn lemma_listing(entries: Seq<(CardPair, f32)>, kvs: Seq<(&CardPair, &f32)>, m: Map<CardPair, f32>)
+    requires
+        listed_prefix(entries, kvs, kvs.len() as int), kvs.no_duplicates(),
+        forall|j: int| 0 <= j < kvs.len() ==> m.contains_key(*(#[trigger] kvs[j]).0) && m[*kvs[j].0] == *kvs[j].1,
+        forall|k: CardPair| m.contains_key(k) ==> exists|j: int| 0 <= j < kvs.len() && *(#[trigger] kvs[j]).0 == k,
+    ensures is_listing(entries, m),
+{
+    assert forall|k: int, l: int| 0 <= k < l < entries.len() implies (#[trigger] entries[k]).0 != (#[trigger] entries[l]).0 by {
+        if entries[k].0 == entries[l].0 {
+            assert(m[*kvs[k].0] == *kvs[k].1 && m[*kvs[l].0] == *kvs[l].1);
+            assert(kvs[k] == kvs[l]);
+        }
+    }
+    assert forall|cp: CardPair| m.contains_key(cp) implies exists|k: int| 0 <= k < entries.len() && (#[trigger] entries[k]).0 == cp by {
+        let j = choose|j: int| 0 <= j < kvs.len() && *(#[trigger] kvs[j]).0 == cp;
+        assert(entries[j].0 == cp);
+    }
+}
+
+pub proof fn lemma_listing_if_done(entries: Seq<(CardPair, f32)>, kvs: Seq<(&CardPair, &f32)>, m: Map<CardPair, f32>, n: int)
+    requires
+        listed_prefix(entries, kvs, n), kvs.no_duplicates(), 0 <= n <= kvs.len(),
+        forall|j: int| 0 <= j < kvs.len() ==> m.contains_key(*(#[trigger] kvs[j]).0) && m[*kvs[j].0] == *kvs[j].1,
+        forall|k: CardPair| m.contains_key(k) ==> exists|j: int| 0 <= j < kvs.len() && *(#[trigger] kvs[j]).0 == k,
+    ensures n == kvs.len() ==> is_listing(entries, m),
+{
+    if n == kvs.len() { lemma_listing(entries, kvs, m); }
+}
+
+pub proof fn lemma_deck_game(deck: Seq<Card>, flop: Seq<Card>)
+    requires deck_is_unseen(deck, flop), flop.len() == 3,
+    ensures distinct_cards(deck), forall|i: int, j: int| 0 <= i < 49 && 0 <= j < 3 ==> #[trigger] deck[i] != #[trigger] flop[j],
+{
+    assert forall|i: int, j: int| 0 <= i < j < deck.len() implies deck[i] != deck[j] by {
+        assert(card_code(deck[i]) < card_code(deck[j]));
+    }
+    assert forall|i: int, j: int| 0 <= i < 49 && 0 <= j < 3 implies #[trigger] deck[i] != #[trigger] flop[j] by {
+        assert(in_seq(deck[i], deck));
+        if deck[i] == flop[j] { assert(in_seq(deck[i], flop)); }
+    }
+}
